@@ -7,6 +7,7 @@ package main
 
 import (
 	"go/token"
+	"math/big"
 	"strings"
 
 	"golang.org/x/tools/go/ssa"
@@ -114,7 +115,19 @@ func rulesC15(w *World, o *Out) {
 		okS := false
 		for _, m := range w.mutsIn(fl, sbt) {
 			for _, f := range FactsAt(m.Site.Instr) {
-				if f.Kind == FCmp && f.Op == token.GEQ {
+				if f.Kind == FCmp && (f.Op == token.GEQ || f.Op == token.GTR) {
+					k, isC := canon(f.Y).(*ssa.Const)
+					if !isC {
+						continue
+					}
+					r, okr := constRat(k)
+					if !okr {
+						continue
+					}
+					// Sign() >= 0, or Sign() > -1
+					if !(f.Op == token.GEQ && r.Sign() == 0 || f.Op == token.GTR && r.Cmp(big.NewRat(-1, 1)) == 0) {
+						continue
+					}
 					if fl.DependsOnCall(f.X, func(c Callee) bool { return c.Name == "Sign" }) != nil {
 						okS = true
 					}
@@ -178,6 +191,10 @@ func rulesC15(w *World, o *Out) {
 	if upd != nil {
 		o.Analysed(w.FuncKey(upd))
 		// Total assignments: amount, or stored.Total.Add(amount)
+		nAcc := 0
+		defer func() {
+			o.Check("C15.R3", "UpdateBridgeTransferUsageWithLimit|an ongoing window accumulates", nAcc > 0, w.Pos(upd.Pos()), "some assignment of the new total must be stored total + amount; otherwise every transfer is measured alone against the limit")
+		}()
 		for _, st := range storesToField(upd, "BridgeTransferUsage", "Total") {
 			names, args, recv := mathChain(st.Val)
 			ok := false
@@ -188,6 +205,9 @@ func rulesC15(w *World, o *Out) {
 				rn, _ := loadedField(recv)
 				an, _ := loadedField(args[0])
 				ok = rn == "Total" && an == "Amount" && fl.DependsOnCall(recv, isCallee(skw, "Keeper", "BridgeTransferUsage")) != nil
+				if ok {
+					nAcc++
+				}
 			}
 			o.Check("C15.R3", "UpdateBridgeTransferUsageWithLimit|new total is the amount or stored total + amount", ok, w.Pos(st.Pos()), "unexpected usage arithmetic: "+strings.Join(names, "."))
 		}
@@ -314,6 +334,16 @@ func rulesC16(w *World, o *Out) {
 			okAmt := len(aps) > 0
 			for a := range aps {
 				if p, isP := a.Root.(*ssa.Parameter); isP && p.Name() != "amount" {
+					okAmt = false
+				}
+			}
+			// ... and it is that very value, not the result of arithmetic over it
+			lv := coinLeaves(coins)
+			if len(lv) == 0 {
+				okAmt = false
+			}
+			for _, l := range lv {
+				if !isParamNamed(l, "amount") {
 					okAmt = false
 				}
 			}
@@ -853,7 +883,63 @@ func rulesC18(w *World, o *Out) {
 					okF = true
 				}
 			}
-			o.Check("C18.R3", "sale|licence only with a funder holding the amount", okF, pos, "must be dominated by funder != nil")
+			// ... and every non-nil value the funder variable can take was assigned under HasBalance(.., that account, coin)
+			if okF && len(s.Args()) >= 2 {
+				var fv ssa.Value
+				for _, a := range s.Args() {
+					if c, isCall := canon(a).(*ssa.Call); isCall { // funder.String()
+						if cal, okc := CalleeOf(c.Common()); okc && cal.Name == "String" && cal.Recv == "AccAddress" && len(c.Call.Args) > 0 {
+							fv = canon(c.Call.Args[0])
+						}
+					}
+				}
+				seen := map[*ssa.Phi]bool{}
+				var walk func(ph *ssa.Phi)
+				walk = func(ph *ssa.Phi) {
+					if seen[ph] {
+						return
+					}
+					seen[ph] = true
+					for i, e := range ph.Edges {
+						ev := canon(e)
+						if isNilConst(ev) {
+							continue
+						}
+						if p2, isPhi := ev.(*ssa.Phi); isPhi {
+							walk(p2)
+							continue
+						}
+						pred := ph.Block().Preds[i]
+						facts := DomFacts(pred)
+						if len(pred.Instrs) > 0 {
+							if iff, isIf := pred.Instrs[len(pred.Instrs)-1].(*ssa.If); isIf && pred.Succs[0] != pred.Succs[1] {
+								facts = append(facts, factOf(iff.Cond, pred.Succs[0] == ph.Block()))
+							}
+						}
+						held := false
+						for _, fa := range facts {
+							if fa.Kind != FTrue {
+								continue
+							}
+							if hc, isCall := canon(fa.V).(*ssa.Call); isCall {
+								if cal, okc := CalleeOf(hc.Common()); okc && cal.Name == "HasBalance" {
+									args := hc.Common().Args
+									if len(args) >= 2 && (canon(args[len(args)-2]) == ev || sameLoad(args[len(args)-2], ev)) {
+										held = true
+									}
+								}
+							}
+						}
+						if !held {
+							okF = false
+						}
+					}
+				}
+				if ph, isPhi := fv.(*ssa.Phi); isPhi {
+					walk(ph)
+				}
+			}
+			o.Check("C18.R3", "sale|licence only with a funder holding the amount", okF, pos, "must be dominated by funder != nil, and the funder variable is only ever set to an account for which HasBalance(account, coin) held")
 			ft, why := errorFate(cs, s)
 			o.Check("C18.R3", "sale|licence creation failure propagates", ft == fatePropagates, pos, why)
 		}
